@@ -119,6 +119,11 @@ func (e *Engine) genVal(t int) []byte {
 			b[i+j] = byte(x >> (8 * uint(j)))
 		}
 	}
+	if e.P.Types[t].Kind == "relptr" {
+		for i := 0; i < 8 && i < n; i++ {
+			b[i] = 0 // the embedded pointer stays nil
+		}
+	}
 	return b
 }
 
